@@ -117,6 +117,9 @@ let () =
                          | Some Labels.FShort -> "short" | Some Labels.FLong -> "long" | None -> "none")
         | ["RIPF"; disp; imm; lo; hole] ->
           print_endline (string_of_cz (Labels.x64_rip_field (cz_of_string disp) (cz_of_string imm) (cz_of_string lo) (cz_of_string hole)))
+        | ["A64"; pc; w] ->
+          (* architectural meaning of an AArch64 word through the structural decoder Labels.A64Dec *)
+          print_endline (match Labels.a64_site_target (cz_of_string pc) (cz_of_string w) with Some t -> string_of_cz t | None -> "none")
         | ["DUMP"] ->
           (match !fl with
            | None -> print_endline (dump !st)
